@@ -25,6 +25,10 @@ GeomOK(e) ==
    /\ \A j \in 1..Len(e.variants) : LET w == e.variants[j] IN
          /\ "panic" \notin DOMAIN w
          /\ SelfOK(w)
+         \* the relatives really are what they are called (derived::dual, covers::covers, the harness' renumbering)
+         /\ (w.how = "dual" => w.sym = Dual(e.base.sym))
+         /\ (w.how = "renumber" => Isomorphic(w.sym, e.base.sym))
+         /\ (w.how \notin {"dual", "renumber"} => IsCoverOf(w.sym, e.base.sym))
          /\ IF w.how \in {"renumber", "dual"}
             THEN Frac(w.curv) = Frac(e.base.curv) /\ SameOrbifold(w.orb, e.base.orb)
                  /\ w.euc = e.base.euc /\ w.hyp = e.base.hyp /\ w.sph = e.base.sph
